@@ -715,3 +715,227 @@ Proof.
         apply (Hpost FClose); [discriminate | reflexivity].
       * apply (cs_same c s); [exact Hcs | reflexivity | reflexivity | | | ]; simpl; rewrite ?EC, ?app_nil_r; auto. exists []. now rewrite app_nil_r.
 Qed.
+
+(* --- user side --- *)
+Lemma nth_error_upd_nth_eq {A} (l : list A) i x u :
+  nth_error l i = Some u -> nth_error (upd_nth l i x) i = Some x.
+Proof. revert i; induction l as [|a l IH]; intros [|i]; simpl; try discriminate; auto. Qed.
+Lemma nth_error_upd_nth_neq {A} (l : list A) i j x :
+  i <> j -> nth_error (upd_nth l i x) j = nth_error l j.
+Proof.
+  revert i j; induction l as [|a l IH]; intros [|i] [|j] H; simpl; try reflexivity; try congruence.
+  apply IH. congruence.
+Qed.
+
+Lemma no_ctl_cons o r : no_ctl (o :: r) -> is_ctl o = false /\ no_ctl r.
+Proof. unfold no_ctl. simpl. intros H. apply andb_true_iff in H as [H1 H2]. split; [now destruct (is_ctl o)|exact H2]. Qed.
+Lemma ctl_ordered_cons o r : ctl_ordered (o :: r) = true -> ctl_ordered r = true /\ (o = Close -> no_ctl r).
+Proof.
+  destruct o; simpl; intros H; split; auto; try discriminate.
+  induction r as [|o r IH]; simpl in *; [reflexivity|].
+  apply andb_true_iff in H as [H1 H2]. destruct o; simpl in *; try discriminate. now apply IH.
+Qed.
+
+Lemma others_set_user c s i u u' :
+  CtlInv c s -> nth_error (us s) i = Some u ->
+  (i <> c -> no_ctl (prog u') /\ is_call_pc (pc u') = false) ->
+  forall j w, nth_error (upd_nth (us s) i u') j = Some w -> j <> c ->
+              no_ctl (prog w) /\ is_call_pc (pc w) = false.
+Proof.
+  intros HC Hn Hu' j w Hj Hjc. destruct (Nat.eq_dec i j) as [->|Hij].
+  - rewrite (nth_error_upd_nth_eq _ _ _ _ Hn) in Hj. inversion Hj; subst. now apply Hu'.
+  - rewrite nth_error_upd_nth_neq in Hj by exact Hij. eapply (ci_others _ _ HC); eauto.
+Qed.
+
+(* thread i takes a step of a record program *)
+Lemma ctl_rec_step c s i u u' q' lg :
+  CtlInv c s -> nth_error (us s) i = Some u ->
+  is_call_pc (pc u) = false -> is_call_pc (pc u') = false ->
+  (ctl_ordered (prog u) = true -> ctl_ordered (prog u') = true) ->
+  (no_ctl (prog u) -> no_ctl (prog u')) ->
+  (forall e, In e lg -> not_ret e /\ not_call_of c e /\ match e with EDeq _ => False | _ => True end) ->
+  CtlInv c (set_user s i u' q' (cpc_ s) (closed s) lg).
+Proof.
+  intros HC Hn Hpc Hpc' Hord Hnc Hlg. pose proof HC as [A B C D E]. split; simpl; auto.
+  - apply (others_set_user c s i u u' HC Hn). intros Hic. split; auto. apply Hnc. apply (B i u Hn Hic).
+  - destruct (Nat.eq_dec i c) as [->|Hic].
+    + unfold ctl_state in *. simpl. rewrite (nth_error_upd_nth_eq _ _ _ _ Hn). rewrite Hn in C.
+      destruct C as [C0 C]. split; [now apply Hord|].
+      destruct (pc u) as [| | |k]; try discriminate; destruct (pc u') as [| | |k']; try discriminate;
+        (destruct (closed s); [destruct C; split; auto | exact C]).
+    + apply (cs_same c s); simpl; auto.
+      * now apply nth_error_upd_nth_neq.
+      * apply call_mark_app_nocall. intros e He. now apply Hlg.
+      * rewrite dequeued_app. eauto.
+  - apply retok_app_noret; auto. intros e He. now apply Hlg.
+Qed.
+
+Lemma write_step_ctl c s i u r all x rest :
+  CtlInv c s -> nth_error (us s) i = Some u -> is_call_pc (pc u) = false ->
+  (ctl_ordered (prog u) = true -> ctl_ordered r = true) -> (no_ctl (prog u) -> no_ctl r) ->
+  CtlInv c (write_step s i r all x rest).
+Proof.
+  intros HC Hn Hpc Ho Hnc. unfold write_step.
+  destruct (zlen (q s) <? qcap s); [destruct rest|]; eapply ctl_rec_step; eauto; simpl;
+    intros e He; repeat (destruct He as [<-|He]; [simpl; auto|]); destruct He.
+Qed.
+
+Lemma user_step_ctl c s i s' : Inv s -> CtlInv c s -> user_step s i = Some s' -> CtlInv c s'.
+Proof.
+  intros HI HC H. unfold user_step in H.
+  destruct (nth_error (us s) i) as [u|] eqn:En; [|discriminate].
+  pose proof HC as [A B C D E].
+  destruct (pc u) as [|all rest| |k] eqn:Epc.
+  - destruct (prog u) as [|[ps| |] r] eqn:Ep; [discriminate| | |].
+    + (* a record program *)
+      destruct ps as [|x ps]; inversion H; subst; clear H.
+      * eapply ctl_rec_step; eauto; try (rewrite Epc; reflexivity); simpl; rewrite ?Ep.
+        -- intros Ho. now apply ctl_ordered_cons in Ho.
+        -- intros Ho. now apply no_ctl_cons in Ho.
+        -- intros e [<-|[]]. simpl. auto.
+      * eapply write_step_ctl; eauto; try (rewrite Epc; reflexivity); rewrite ?Ep.
+        -- intros Ho. now apply ctl_ordered_cons in Ho.
+        -- intros Ho. now apply no_ctl_cons in Ho.
+    + (* Flush() is called *)
+      destruct (Nat.eq_dec i c) as [->|Hic];
+        [|exfalso; destruct (B _ _ En Hic) as [Hn _]; rewrite Ep in Hn; apply no_ctl_cons in Hn as [Hn _]; discriminate].
+      unfold ctl_state in C. rewrite En, Epc, Ep in C. destruct C as [C0 C].
+      destruct (closed s) eqn:Ecl; [exfalso; destruct C as [_ Hn]; apply no_ctl_cons in Hn as [Hn _]; discriminate|].
+      inversion H; subst; clear H. split; simpl; auto.
+      * intros j w; apply (others_set_user c s c u _ HC En); intros Hcc; congruence.
+      * unfold ctl_state. simpl. rewrite (nth_error_upd_nth_eq _ _ _ _ En). simpl.
+        apply ctl_ordered_cons in C0 as [C0 _]. auto.
+      * apply retok_app_noret; auto. intros e [<-|[]]. exact I.
+    + (* Close() is called *)
+      destruct (Nat.eq_dec i c) as [->|Hic];
+        [|exfalso; destruct (B _ _ En Hic) as [Hn _]; rewrite Ep in Hn; apply no_ctl_cons in Hn as [Hn _]; discriminate].
+      unfold ctl_state in C. rewrite En, Epc, Ep in C. destruct C as [C0 C].
+      destruct (closed s) eqn:Ecl; [exfalso; destruct C as [_ Hn]; apply no_ctl_cons in Hn as [Hn _]; discriminate|].
+      inversion H; subst; clear H. split; simpl; auto.
+      * intros j w; apply (others_set_user c s c u _ HC En); intros Hcc; congruence.
+      * unfold ctl_state, progress. simpl. rewrite (nth_error_upd_nth_eq _ _ _ _ En). simpl.
+        apply ctl_ordered_cons in C0 as [C0 C1]. rewrite C. repeat split; auto.
+      * apply retok_app_noret; auto. intros e [<-|[]]. exact I.
+  - destruct rest as [|x rest]; [discriminate|]. inversion H; subst; clear H.
+    eapply write_step_ctl; eauto. rewrite Epc; reflexivity.
+  - (* the send on flushNow meets the consumer's select *)
+    destruct (Nat.eq_dec i c) as [->|Hic];
+      [|exfalso; destruct (B _ _ En Hic) as [_ Hn]; rewrite Epc in Hn; discriminate].
+    unfold ctl_state in C. rewrite En, Epc in C. destruct C as [C0 [Ecl C]]. rewrite Ecl in H.
+    destruct (cpc_ s) eqn:EC; try discriminate. inversion H; subst; clear H. split; simpl; auto.
+    + intros j w; apply (others_set_user c s c u _ HC En); intros Hcc; congruence.
+    + unfold ctl_state, progress. simpl. rewrite (nth_error_upd_nth_eq _ _ _ _ En). simpl. auto.
+    + intros; discriminate.
+    + now rewrite app_nil_r.
+  - (* the receive on flushComplete *)
+    destruct (Nat.eq_dec i c) as [->|Hic];
+      [|exfalso; destruct (B _ _ En Hic) as [_ Hn]; rewrite Epc in Hn; discriminate].
+    destruct (cpc_ s) as [| | |cl|] eqn:EC; try discriminate. inversion H; subst; clear H.
+    pose proof (D _ eq_refl) as Hbuf.
+    assert (Hfile : file s = concat (dequeued (log s))).
+    { rewrite (inv_bytes _ HI), EC, Hbuf. unfold pend_of. now rewrite !app_nil_r. }
+    unfold ctl_state, progress in C. rewrite En, Epc, EC in C. simpl in C. destruct C as [C0 C].
+    assert (Hprog : is_prefix (call_mark c (log s)) (dequeued (log s)) /\ cl = k /\ closed s = k /\ (k = true -> no_ctl (prog u))).
+    { destruct k.
+      - destruct C as (C1 & C2 & C3 & [C4|[C4|[C4|C4]]]); try discriminate. inversion C4. auto.
+      - destruct C as (C1 & C3 & [C4|[C4|C4]]); try discriminate. inversion C4. repeat split; auto. discriminate. }
+    destruct Hprog as (Hp & -> & Ecl & Hnc).
+    split; simpl; auto.
+    + intros j w; apply (others_set_user c s c u _ HC En); intros Hcc; congruence.
+    + unfold ctl_state. simpl. rewrite (nth_error_upd_nth_eq _ _ _ _ En). simpl. rewrite Ecl.
+      split; [exact C0|]. destruct k; simpl; auto.
+    + apply retok_snoc_ret; auto. intros l1 k0 l2 El Hno.
+      exists (dequeued (log s)). repeat split; auto.
+      * rewrite <- (inv_chunks _ HI), El, !accepted_app. reflexivity.
+      * rewrite <- (call_mark_decomp c l1 k0 l2 Hno), <- El. exact Hp.
+Qed.
+
+(* --- putting it together --- *)
+Definition Full (c : nat) (s : st) : Prop := Inv s /\ CtlInv c s.
+
+Lemma step_full c : Inductive_inv st tid step (Full c).
+Proof.
+  intros s t s' [HI HC] H. split; [eapply step_inv; eauto|].
+  unfold step in H. destruct (crashed s); [discriminate|].
+  destruct t as [b|i|].
+  - eapply cons_step_ctl; eauto.
+  - eapply user_step_ctl; eauto.
+  - destruct (tick s); [discriminate|]. inversion H; subst. now apply ctl_set_tick.
+Qed.
+
+Lemma ctl_init cap bsize progs :
+  ctl_discipline progs -> exists c, CtlInv c (init cap bsize progs).
+Proof.
+  intros [c Hc]. exists c. split; simpl; auto.
+  - intros i u Hn Hic. rewrite nth_error_map in Hn. destruct (nth_error progs i) as [p|] eqn:Ep; [|discriminate].
+    inversion Hn; subst; simpl. specialize (Hc _ _ Ep). destruct (Nat.eqb_spec i c); [contradiction|]. auto.
+  - unfold ctl_state. simpl. rewrite nth_error_map. destruct (nth_error progs c) as [p|] eqn:Ep; simpl; auto.
+    specialize (Hc _ _ Ep). rewrite Nat.eqb_refl in Hc. auto.
+  - intros l1 i k l2 k' f qs b l3 E. exfalso. destruct l1; discriminate.
+Qed.
+
+Lemma reach_full cap bsize progs sched :
+  ctl_discipline progs -> exists c, Full c (runs (init cap bsize progs) sched).
+Proof.
+  intros H. destruct (ctl_init cap bsize progs H) as [c Hc]. exists c.
+  apply run_inv; [apply step_full | split; [apply inv_init | exact Hc]].
+Qed.
+
+Lemma flush_completes_reachable cap bsize progs sched :
+  ctl_discipline progs ->
+  let s := runs (init cap bsize progs) sched in
+  crashed s = false /\
+  forall l1 i k l2 k' f qs b l3,
+    log s = l1 ++ ECall i k :: l2 ++ ERet i k' f qs b :: l3 -> no_event_of i l2 ->
+    exists d, accepted (l1 ++ l2) = d ++ qs /\ f = concat d /\ is_prefix (accepted l1) d /\ b = [].
+Proof.
+  intros H s. destruct (reach_full cap bsize progs sched H) as [c [HI HC]]. fold s in HI, HC.
+  split; [apply (ci_alive _ _ HC)|]. intros. eapply (ci_rets _ _ HC); eauto.
+Qed.
+
+Lemma app_self_nil {A} (l x : list A) : l = l ++ x -> x = [].
+Proof. intros H. rewrite <- (app_nil_r l) in H at 1. now apply app_inv_head in H. Qed.
+
+Lemma close_leaves_nothing_reachable cap bsize progs sched :
+  ctl_discipline progs ->
+  let s := runs (init cap bsize progs) sched in
+  forall l1 i k l2 k' f qs b l3,
+    log s = l1 ++ ECall i k :: l2 ++ ERet i k' f qs b :: l3 -> no_event_of i l2 ->
+    accepted l2 = [] ->
+    qs = [] /\ b = [] /\ f = concat (accepted l1).
+Proof.
+  intros H s l1 i k l2 k' f qs b l3 E Hno Hacc.
+  destruct (flush_completes_reachable cap bsize progs sched H) as [_ HF]. fold s in HF.
+  destruct (HF _ _ _ _ _ _ _ _ _ E Hno) as (d & E1 & E2 & [r E3] & E4).
+  rewrite accepted_app, Hacc, app_nil_r in E1. rewrite E3, <- app_assoc in E1.
+  apply app_self_nil in E1. apply app_eq_nil in E1 as [-> ->]. rewrite app_nil_r in E3. subst. auto.
+Qed.
+
+(* --- no deadlock: a caller inside Flush/Close can always be served --- *)
+Lemma writer_no_deadlock_reachable cap bsize progs sched :
+  ctl_discipline progs ->
+  let s := runs (init cap bsize progs) sched in
+  forall i u, nth_error (us s) i = Some u -> is_call_pc (pc u) = true ->
+    (exists b, step s (TC b) <> None) \/ step s (TU i) <> None.
+Proof.
+  intros H s i u En Hpc. destruct (reach_full cap bsize progs sched H) as [c [HI HC]]. fold s in HI, HC.
+  destruct HC as [A B C D E].
+  destruct (Nat.eq_dec i c) as [->|Hic]; [|destruct (B _ _ En Hic) as [_ Hn]; congruence].
+  unfold ctl_state, progress in C. rewrite En in C. destruct C as [_ C].
+  unfold step, user_step, cons_step. rewrite A, En.
+  destruct (pc u) as [| | |k]; try discriminate.
+  - destruct C as [Ecl P]. rewrite Ecl.
+    destruct (cpc_ s) as [|k|w [p m|k]| |]; try discriminate.
+    + right. discriminate.
+    + left. exists BData. destruct (q s); [destruct (zlen (buf s) =? 0)|destruct (bufio_write _ _ _ _)]; discriminate.
+    + left. exists BData. destruct (bufio_write _ _ _ _); discriminate.
+    + left. exists BData. discriminate.
+  - destruct (cpc_ s) as [|k'|w [p m|k']|cl|].
+    + left. exists BCtl. destruct k; [destruct C as [-> _]; discriminate|].
+      destruct C as (_ & _ & [P|[P|P]]); discriminate.
+    + left. exists BData. destruct (q s); [destruct (zlen (buf s) =? 0)|destruct (bufio_write _ _ _ _)]; discriminate.
+    + left. exists BData. destruct (bufio_write _ _ _ _); discriminate.
+    + left. exists BData. discriminate.
+    + right. discriminate.
+    + exfalso. destruct k; [destruct C as (_ & _ & _ & [P|[P|[P|P]]])|destruct C as (_ & _ & [P|[P|P]])]; discriminate.
+Qed.
